@@ -524,7 +524,12 @@ func init() {
 	// repo helpers that reinterpret slice/string headers through unsafe.Pointer (value copies here:
 	// later writes through the slice are not seen through the string)
 	reg("github.com/ozontech/seq-db/util.ByteToStringUnsafe", func(in *Interp, s *State, c *callCtx) (Value, []*State, bool) {
-		return in.sliceToStr(s, c.args[0].(*Slice)), nil, true
+		sl := c.args[0].(*Slice)
+		if in.cfg.Models["unsafe-string-alias"] && sl.Len > 0 {
+			// the string shares the slice's bytes: later writes through the slice show through it
+			return &Str{A: &Slice{Arr: sl.Arr, Off: sl.Off, Len: sl.Len, Cap: sl.Len}}, nil, true
+		}
+		return in.sliceToStr(s, sl), nil, true
 	})
 	reg("github.com/ozontech/seq-db/util.StringToByteUnsafe", func(in *Interp, s *State, c *callCtx) (Value, []*State, bool) {
 		bs := in.strBytes(c.args[0].(*Str))
@@ -697,6 +702,9 @@ func (in *Interp) fpBits(s *State, f *term.Term) *term.Term {
 
 func (in *Interp) sprintf(s *State, args []Value) *Str {
 	format, ok := args[0].(*Str)
+	if ok {
+		format = in.mat(format)
+	}
 	if !ok || format.B != nil {
 		return &Str{S: "<fmt>"}
 	}
@@ -712,6 +720,7 @@ func (in *Interp) sprintf(s *State, args []Value) *Str {
 			}
 			switch v := e.V.(type) {
 			case *Str:
+				v = in.mat(v)
 				if v.B == nil {
 					parts = append(parts, v.S)
 				} else {
